@@ -87,8 +87,9 @@ def main():
     if A.max: mus = mus[:A.max]
     outp = os.path.join(ROOT, 'mutants', 'SWEEP.json'); done = {}
     if A.resume and os.path.exists(outp):
-        for r in json.load(open(outp)): done[(r['file'], r['line'], r['desc'])] = r
-    todo = [m for m in mus if (m['file'], m['line'], m['desc']) not in done]
+        for r in json.load(open(outp)):
+            if not r.get('errors'): done[(r['file'], r['line'], r['desc'], r['new'])] = r     # records with machinery errors are re-run
+    todo = [m for m in mus if (m['file'], m['line'], m['desc'], m['new']) not in done]
     print('%d mutants, %d to run' % (len(mus), len(todo)), flush=True)
     per = max(1, (os.cpu_count() or 8) // A.jobs); res = list(done.values()); t0 = time.time()
     with ThreadPoolExecutor(A.jobs) as ex:
